@@ -205,6 +205,10 @@ func (p *Pipe) Stream(dir string) *stream {
 
 func (p *Pipe) TapOf(dir string) *Tap { return p.Stream(dir).Tap }
 
+// Alive: no fault killed the connection and neither endpoint closed it
+// (call with the net lock held, e.g. between Net.Lock / Net.Unlock).
+func (p *Pipe) Alive() bool { return p.Dead == "" && !p.C.closed && !p.S.closed }
+
 type Endpoint struct {
 	pipe   *Pipe
 	side   string // "C" | "S"
